@@ -1,3 +1,15 @@
 package main
 
-func extractRest5(l *loaded, genDir, jsonDir string) error { return nil }
+func extractRest5(l *loaded, genDir, jsonDir string) error {
+	vars, steps, err := extractShared(l)
+	if err != nil {
+		return err
+	}
+	if err := writeJSON(jsonDir+"/shared_state.json", map[string]any{"vars": vars, "metric_steps": steps}); err != nil {
+		return err
+	}
+	if err := emitSharedLean(vars, steps, genDir); err != nil {
+		return err
+	}
+	return extractRest6(l, genDir, jsonDir)
+}
